@@ -10,7 +10,7 @@ code: every operation is run on the sequence as generated and on permuted copies
 (each repeated field shuffled), and the canonical (multiset) outputs are compared.
 Thorough tier: all permutations of the notes for <= 5 notes.
 
-Model side (coq/Run/C12.v): for 14 of the 18 operations the imported models are run
+Model side (coq/Run/C12.v): for 17 of the 22 operations the imported models are run
 on the same original / permuted wire-format sequences, the multiset comparison is
 done inside the extracted Coq code, and the verdict (accepted or raises; which
 permuted copies give another result) must be the verdict computed on the real code.
@@ -25,7 +25,7 @@ from vt import nsio
 ID = 'C12'
 META = {
     'level_text': (
-        'Proof (Coq, 34 statements): perm_invariant_<op> theorems for ALL sequences satisfying the named distinctness '
+        'Proof (Coq, 36 statements): perm_invariant_<op> theorems for ALL sequences satisfying the named distinctness '
         'hypotheses and ALL permutations of each repeated field, about the Gallina models the other checks tie to '
         'the code; plus the property statement itself evaluated on the real implementation for every operation the '
         'property lists (original vs permuted storage order, canonical multiset outputs compared), plus the same '
@@ -57,10 +57,12 @@ ASSUMPTIONS = ['outputs are compared as multisets (notes, events sorted on all f
                'in the C10 model); quantization and MIDI export have no model side here (float / microsecond models)']
 
 T = nsio.QUARTER_SEC
-OPS = ['quantize_rel', 'quantize_abs', 'extract_many', 'split_hop', 'split_time_changes', 'split_silence',
-       'sustain', 'transpose', 'stretch', 'midi', 'pianoroll', 'melody', 'drums', 'chords', 'pianorollseq',
-       'performance', 'metric_performance', 'shift']
-FIELDS = ('notes', 'tempos', 'tsigs', 'ksigs', 'texts', 'ccs', 'bends')
+OPS = ['quantize_rel', 'quantize_abs', 'extract_many', 'extract_one', 'trim', 'split_hop', 'split_list',
+       'split_time_changes', 'split_silence', 'sustain', 'transpose', 'stretch', 'shift', 'midi', 'pianoroll',
+       'melody', 'drums', 'chords', 'pianorollseq', 'performance', 'metric_performance', 'note_performance']
+# every repeated field an operation reads ('iinfos' = instrument_infos, read by MIDI export only)
+FIELDS = ('notes', 'tempos', 'tsigs', 'ksigs', 'texts', 'ccs', 'bends', 'sects', 'iinfos')
+IN_PLACE_OPS = ('transpose', 'stretch')
 
 
 def _quiet():
@@ -69,6 +71,15 @@ def _quiet():
         absl_logging.set_verbosity(absl_logging.ERROR)
     except Exception:  # noqa
         pass
+
+
+def _to_proto(desc):
+    ns = nsio.to_proto(desc)
+    for (i, k) in desc.get('iinfos', []):
+        ii = ns.instrument_infos.add()
+        ii.instrument = i
+        ii.name = 'name-%d' % k
+    return ns
 
 
 def _canon_seq(ns):
@@ -108,117 +119,167 @@ def _quantized_distinct(q):
     return len(steps) == len(set(steps))
 
 
-def _run(op, ns, args):
+def _events(m):
+    return [[e.event_type, e.event_value] for e in m]
+
+
+def _run(op, ns, p):
+    """Run the REAL code with exactly the requested parameter values (every keyword passed explicitly)."""
     from note_seq import sequences_lib as sl
     _quiet()
+    pres = p.get('pres')
     if op == 'quantize_rel':
-        return _canon_seq(sl.quantize_note_sequence(ns, args[0]))
+        return _canon_seq(sl.quantize_note_sequence(ns, p['spq']))
     if op == 'quantize_abs':
-        return _canon_seq(sl.quantize_note_sequence_absolute(ns, args[0]))
+        return _canon_seq(sl.quantize_note_sequence_absolute(ns, p['sps']))
     if op == 'extract_many':
-        return [_canon_seq(s) for s in sl._extract_subsequences(ns, [nsio.t2f(t) for t in args[0]])]
+        return [_canon_seq(s) for s in sl._extract_subsequences(ns, [nsio.t2f(t) for t in p['ts']],
+                                                                 preserve_control_numbers=pres)]
+    if op == 'extract_one':
+        return _canon_seq(sl.extract_subsequence(ns, nsio.t2f(p['a']), nsio.t2f(p['b']),
+                                                 preserve_control_numbers=pres))
+    if op == 'trim':
+        return _canon_seq(sl.trim_note_sequence(ns, nsio.t2f(p['a']), nsio.t2f(p['b'])))
     if op == 'split_hop':
-        return [_canon_seq(s) for s in sl.split_note_sequence(ns, nsio.t2f(args[0]), bool(args[1]))]
+        return [_canon_seq(s) for s in sl.split_note_sequence(ns, nsio.t2f(p['hop']),
+                                                               skip_splits_inside_notes=bool(p['skip']))]
+    if op == 'split_list':
+        return [_canon_seq(s) for s in sl.split_note_sequence(ns, [nsio.t2f(t) for t in p['times']],
+                                                               skip_splits_inside_notes=bool(p['skip']))]
     if op == 'split_time_changes':
-        return [_canon_seq(s) for s in sl.split_note_sequence_on_time_changes(ns, bool(args[0]))]
+        return [_canon_seq(s) for s in sl.split_note_sequence_on_time_changes(
+            ns, skip_splits_inside_notes=bool(p['skip']))]
     if op == 'split_silence':
-        return [_canon_seq(s) for s in sl.split_note_sequence_on_silence(ns, nsio.t2f(args[0]))]
+        return [_canon_seq(s) for s in sl.split_note_sequence_on_silence(ns, gap_seconds=nsio.t2f(p['gap']))]
     if op == 'sustain':
-        return _canon_seq(sl.apply_sustain_control_changes(ns))
+        return _canon_seq(sl.apply_sustain_control_changes(ns, sustain_control_number=p['ctl']))
     if op == 'transpose':
-        r, k = sl.transpose_note_sequence(ns, args[0], min_allowed_pitch=args[1], max_allowed_pitch=args[2],
-                                          transpose_chords=bool(args[3]))
-        return [_canon_seq(r), k]
+        r, k = sl.transpose_note_sequence(ns, p['amount'], min_allowed_pitch=p['lo'], max_allowed_pitch=p['hi'],
+                                          transpose_chords=bool(p['chords']), in_place=bool(p['in_place']))
+        return [_canon_seq(r), k, (r is ns) == bool(p['in_place'])]
     if op == 'stretch':
-        return _canon_seq(sl.stretch_note_sequence(ns, args[0] / 4.0))
+        r = sl.stretch_note_sequence(ns, p['f4'] / 4.0, in_place=bool(p['in_place']))
+        return [_canon_seq(r), (r is ns) == bool(p['in_place'])]
     if op == 'shift':
-        return _canon_seq(sl.shift_sequence_times(ns, nsio.t2f(args[0])))
+        return _canon_seq(sl.shift_sequence_times(ns, nsio.t2f(p['d'])))
     if op == 'midi':
         from note_seq import midi_io
         pm = midi_io.note_sequence_to_pretty_midi(
-            ns, drop_events_n_seconds_after_last_note=(None if args[0] is None else args[0] / 4.0))
+            ns, drop_events_n_seconds_after_last_note=(None if p['drop'] is None else p['drop'] / 4.0))
         insts = []
         for i in pm.instruments:
-            insts.append([i.program, int(i.is_drum),
+            insts.append([i.program, int(i.is_drum), i.name,
                           sorted([n.pitch, n.velocity, round(n.start * 1e9), round(n.end * 1e9)] for n in i.notes),
                           sorted([c.number, c.value, round(c.time * 1e9)] for c in i.control_changes),
                           sorted([b.pitch, round(b.time * 1e9)] for b in i.pitch_bends)])
         tt, tv = pm.get_tempo_changes()
         return [sorted(insts, key=repr), [round(float(x) * 1e9) for x in tt], [round(float(x) * 1e6) for x in tv],
                 sorted([t.numerator, t.denominator, round(t.time * 1e9)] for t in pm.time_signature_changes),
-                sorted([k.key_number, round(k.time * 1e9)] for k in pm.key_signature_changes)]
+                sorted([k.key_number, round(k.time * 1e9)] for k in pm.key_signature_changes), pm.resolution]
     if op == 'pianoroll':
         import numpy as np
-        r = sl.sequence_to_pianoroll(ns, frames_per_second=args[0], min_pitch=args[1], max_pitch=args[2],
-                                     onset_mode=args[3], onset_length_ms=args[4], offset_length_ms=args[4],
-                                     add_blank_frame_before_onset=bool(args[5]), onset_overlap=bool(args[6]),
-                                     min_frame_occupancy_for_label=args[7] / 4.0)
+        r = sl.sequence_to_pianoroll(ns, frames_per_second=p['fps'], min_pitch=p['lo'], max_pitch=p['hi'],
+                                     max_velocity=p['max_vel'], add_blank_frame_before_onset=bool(p['blank']),
+                                     onset_upweight=float(p['upweight']), onset_window=p['window'],
+                                     onset_length_ms=p['onset_ms'], offset_length_ms=p['offset_ms'],
+                                     onset_mode=p['onset_mode'], onset_delay_ms=float(p['delay_ms']),
+                                     min_frame_occupancy_for_label=p['occ4'] / 4.0,
+                                     onset_overlap=bool(p['overlap']))
         return [[list(a.shape), _digest(np.ascontiguousarray(a).tobytes())] for a in r]
     # event-sequence extraction works on quantized sequences
-    if op in ('melody', 'drums', 'chords', 'pianorollseq', 'metric_performance'):
-        q = sl.quantize_note_sequence(ns, args[0])
-    if op in ('melody', 'drums', 'chords', 'pianorollseq', 'metric_performance') and not _quantized_distinct(q):
+    if op in ('performance', 'note_performance'):
+        q = sl.quantize_note_sequence_absolute(ns, p['sps'])
+    else:
+        q = sl.quantize_note_sequence(ns, p['spq'])
+    if not _quantized_distinct(q):
         return 'OUTSIDE-QUANTIFIER'
     if op == 'melody':
         from note_seq import melodies_lib
         m = melodies_lib.Melody()
-        m.from_quantized_sequence(q, search_start_step=0, instrument=args[1], gap_bars=args[2],
-                                  ignore_polyphonic_notes=bool(args[3]), pad_end=bool(args[4]))
+        m.from_quantized_sequence(q, search_start_step=p['start'], instrument=p['instrument'],
+                                  gap_bars=p['gap_bars'], ignore_polyphonic_notes=bool(p['ignore_poly']),
+                                  pad_end=bool(p['pad_end']), filter_drums=bool(p['filter_drums']))
         return [list(m), m.start_step, m.end_step]
     if op == 'drums':
         from note_seq import drums_lib
         m = drums_lib.DrumTrack()
-        m.from_quantized_sequence(q, search_start_step=0, gap_bars=args[2], pad_end=bool(args[4]))
+        m.from_quantized_sequence(q, search_start_step=p['start'], gap_bars=p['gap_bars'],
+                                  pad_end=bool(p['pad_end']), ignore_is_drum=bool(p['ignore_is_drum']))
         return [[sorted(e) for e in m], m.start_step, m.end_step]
     if op == 'chords':
         from note_seq import chords_lib
         m = chords_lib.ChordProgression()
-        m.from_quantized_sequence(q, args[1], args[1] + args[2])
+        m.from_quantized_sequence(q, p['start'], p['start'] + p['len'])
         return [list(m), m.start_step, m.end_step]
     if op == 'pianorollseq':
         from note_seq import pianoroll_lib
-        m = pianoroll_lib.PianorollSequence(quantized_sequence=q, start_step=args[1], min_pitch=args[2],
-                                            max_pitch=args[3], split_repeats=bool(args[4]))
+        m = pianoroll_lib.PianorollSequence(quantized_sequence=q, start_step=p['start'], min_pitch=p['lo'],
+                                            max_pitch=p['hi'], split_repeats=bool(p['split']),
+                                            shift_range=bool(p['shift_range']))
         return [[list(e) for e in m], m.start_step, m.end_step]
     if op == 'metric_performance':
         from note_seq import performance_lib
-        m = performance_lib.MetricPerformance(quantized_sequence=q, start_step=args[1], num_velocity_bins=args[2],
-                                              instrument=args[3])
-        return [[[e.event_type, e.event_value] for e in m], m.start_step, m.end_step]
+        m = performance_lib.MetricPerformance(quantized_sequence=q, start_step=p['start'],
+                                              num_velocity_bins=p['bins'], max_shift_quarters=p['max_shift_q'],
+                                              instrument=p['instrument'])
+        return [_events(m), m.start_step, m.end_step, m.program, m.is_drum]
     if op == 'performance':
         from note_seq import performance_lib
-        q = sl.quantize_note_sequence_absolute(ns, args[0])
-        if not _quantized_distinct(q):
-            return 'OUTSIDE-QUANTIFIER'
-        m = performance_lib.Performance(quantized_sequence=q, start_step=args[1], num_velocity_bins=args[2],
-                                        instrument=args[3])
-        return [[[e.event_type, e.event_value] for e in m], m.start_step, m.end_step]
+        m = performance_lib.Performance(quantized_sequence=q, start_step=p['start'], num_velocity_bins=p['bins'],
+                                        max_shift_steps=p['max_shift'], instrument=p['instrument'])
+        return [_events(m), m.start_step, m.end_step, m.program, m.is_drum]
+    if op == 'note_performance':
+        from note_seq import performance_lib
+        m = performance_lib.NotePerformance(q, num_velocity_bins=p['bins'], instrument=p['instrument'],
+                                            start_step=p['start'], max_shift_steps=p['max_shift'],
+                                            max_duration_steps=p['max_dur'])
+        return [[_events(t) for t in m], m.start_step, m.end_step]
     raise ValueError(op)
 
 
-def _safe(op, desc, args):
+def _safe(op, desc, p, check_arg=False):
+    """-> ['OK', canonical result] | ['EXC', class name]; with check_arg also whether the argument was modified
+    (by a successful call that is not in_place, or by a call that raised)."""
+    ns = _to_proto(desc)
+    before = ns.SerializeToString(deterministic=True) if check_arg else None
     try:
-        return ['OK', _run(op, nsio.to_proto(desc), args)]
+        out = ['OK', _run(op, ns, p)]
     except Exception as e:  # noqa
-        return ['EXC', type(e).__name__]
+        out = ['EXC', type(e).__name__]
+    if check_arg:
+        # in_place=True asks for the modification (also observed: a ChordSymbolError raised by an in-place
+        # transposition leaves the argument half transposed — not a storage-order matter, not flagged here)
+        in_place = op in IN_PLACE_OPS and p.get('in_place')
+        modified = (not in_place) and ns.SerializeToString(deterministic=True) != before
+        return out, modified
+    return out
 
 
 def impl(case):
     inp = case['input']
-    base = _safe(case['op'], inp['seq'], inp['args'])
+    op, p = case['op'], inp['args']
+    base, modified = _safe(op, inp['seq'], p, check_arg=True)
     diffs = []
     perms = inp.get('note_perms') or [None]
-    for k, p in enumerate(perms):
-        alt = _safe(case['op'], _permute(inp['seq'], inp['seed'] + k, p), inp['args'])
+    for k, pm in enumerate(perms):
+        alt = _safe(op, _permute(inp['seq'], inp['seed'] + k, pm), p)
         if alt != base:
             diffs.append(k)
-    return [base[0] if base[0] == 'OK' else base[1], len(perms), diffs[:3], _digest(base)]
+    # the same call again, after all the others (and after every other configuration run so far in this process):
+    # a result that depends on what was called before would make every comparison above meaningless
+    again = _safe(op, inp['seq'], p)
+    flags = []
+    if again != base:
+        flags.append('not-reproducible')
+    if modified:
+        flags.append('argument-modified')
+    return [base[0] if base[0] == 'OK' else base[1], len(perms), diffs[:3], _digest(base), flags]
 
 
 # ---------------------------------------------------------------- model side (coq/Run/C12.v)
 MODEL_OPS = {'transpose': 1, 'stretch': 2, 'shift': 3, 'extract_many': 4, 'split_hop': 5, 'split_time_changes': 6,
              'split_silence': 7, 'sustain': 8, 'melody': 9, 'drums': 10, 'chords': 11, 'pianorollseq': 12,
-             'performance': 13, 'metric_performance': 13}
+             'performance': 13, 'metric_performance': 13, 'split_list': 14, 'extract_one': 15, 'trim': 16}
 FQ_OPS = ('melody', 'drums', 'chords', 'pianorollseq', 'metric_performance', 'performance')
 
 
@@ -230,28 +291,40 @@ def _desc_wire(d):
 
 def _descs(inp):
     perms = inp.get('note_perms') or [None]
-    return [inp['seq']] + [_permute(inp['seq'], inp['seed'] + k, p) for k, p in enumerate(perms)]
+    return [inp['seq']] + [_permute(inp['seq'], inp['seed'] + k, pm) for k, pm in enumerate(perms)]
+
+
+def _pres(p):
+    """The preserved control numbers the call asks for (None = the documented default)."""
+    if p.get('pres') is None:
+        from note_seq import sequences_lib as sl
+        return list(sl.DEFAULT_SUBSEQUENCE_PRESERVE_CONTROL_NUMBERS)
+    return list(p['pres'])
 
 
 def model_input(case):
     """(op seq (permuted seqs) args...) for coq/Run/C12.v: the imported models are run on the sequence as
     stored and on the same permuted copies impl() uses; None = no model side for this case."""
     op, inp = case['op'], case['input']
-    args = inp['args']
+    p = inp['args']
     code = MODEL_OPS.get(op)
     if code is None:
         return None
-    if op == 'transpose' and args[3]:
+    if op == 'transpose' and p['chords']:
         return None                     # chord figures are a separate encoding in the C10 model
+    if op == 'pianorollseq' and p['shift_range']:
+        return None                     # shift_range is not part of the C07 model
+    if any(n[2] < 0 for n in inp['seq']['notes']):
+        return None                     # negative times: rejection paths of the code, outside the tick models
     descs = _descs(inp)
     if op in FQ_OPS:
         from note_seq import sequences_lib as sl
         _quiet()
         try:
             if op == 'performance':
-                qs = [sl.quantize_note_sequence_absolute(nsio.to_proto(d), args[0]) for d in descs]
+                qs = [sl.quantize_note_sequence_absolute(_to_proto(d), p['sps']) for d in descs]
             else:
-                qs = [sl.quantize_note_sequence(nsio.to_proto(d), args[0]) for d in descs]
+                qs = [sl.quantize_note_sequence(_to_proto(d), p['spq']) for d in descs]
         except Exception:  # noqa  the quantizer rejects the sequence: nothing reaches the extractor
             return None
         if not _quantized_distinct(qs[0]):
@@ -264,33 +337,40 @@ def model_input(case):
         wires = [_desc_wire(d) for d in descs]
     opt = lambda x: [] if x is None else [x]  # noqa
     if op == 'transpose':
-        margs = [args[0], args[1], args[2], 0]
+        margs = [p['amount'], p['lo'], p['hi'], 0]
     elif op == 'stretch':
-        margs = [args[0], 4]
+        margs = [p['f4'], 4]
     elif op == 'shift':
-        margs = [args[0]]
+        margs = [p['d']]
     elif op == 'extract_many':
-        margs = [args[0]]
+        margs = [p['ts'], _pres(p)]
+    elif op == 'extract_one':
+        margs = [p['a'], p['b'], _pres(p)]
+    elif op == 'trim':
+        margs = [p['a'], p['b']]
     elif op == 'split_hop':
-        margs = [args[0], bool(args[1])]
+        margs = [p['hop'], bool(p['skip'])]
+    elif op == 'split_list':
+        margs = [p['times'], bool(p['skip'])]
     elif op == 'split_time_changes':
-        margs = [bool(args[0])]
+        margs = [bool(p['skip'])]
     elif op == 'split_silence':
-        margs = [args[0]]
+        margs = [p['gap']]
     elif op == 'sustain':
-        margs = []
+        margs = [p['ctl']]
     elif op == 'melody':
-        margs = [0, args[1], args[2], bool(args[3]), bool(args[4]), 1]
+        margs = [p['start'], p['instrument'], p['gap_bars'], bool(p['ignore_poly']), bool(p['pad_end']),
+                 bool(p['filter_drums'])]
     elif op == 'drums':
-        margs = [0, args[2], bool(args[4]), 0]
+        margs = [p['start'], p['gap_bars'], bool(p['pad_end']), bool(p['ignore_is_drum'])]
     elif op == 'chords':
-        margs = [args[1], args[1] + args[2]]
+        margs = [p['start'], p['start'] + p['len']]
     elif op == 'pianorollseq':
-        margs = [args[1], args[2], args[3], bool(args[4])]
+        margs = [p['start'], p['lo'], p['hi'], bool(p['split'])]
     elif op == 'performance':
-        margs = [args[1], args[2], 100, opt(args[3])]
+        margs = [p['start'], p['bins'], p['max_shift'], opt(p['instrument'])]
     elif op == 'metric_performance':
-        margs = [args[1], args[2], args[0] * 4, opt(args[3])]
+        margs = [p['start'], p['bins'], p['spq'] * p['max_shift_q'], opt(p['instrument'])]
     else:
         return None
     return [code, wires[0], wires[1:]] + margs
@@ -305,17 +385,21 @@ def model_output(case, out):
 def equal(case, io, mo):
     """The model's verdict (accepted / raises; which permuted copies give another result) is the verdict
     computed on the real code."""
-    if not isinstance(io, list) or len(io) != 4:
+    if not isinstance(io, list) or len(io) != 5:
         return False
     return [io[0] == 'OK', io[1], io[2]] == mo
 
 
 def oracle(case, io):
-    if not isinstance(io, list) or len(io) != 4 or io[0] == 'HARNESS-EXC':
+    if not isinstance(io, list) or len(io) != 5 or io[0] == 'HARNESS-EXC':
         return {'kind': 'harness-exception', 'detail': str(io)[:300]}
     if io[2]:
         return {'kind': 'result-depends-on-storage-order', 'op': case['op'], 'status': io[0],
                 'first_differing_permutation': io[2][0]}
+    if 'not-reproducible' in io[4]:
+        return {'kind': 'result-changes-between-identical-calls', 'op': case['op'], 'status': io[0]}
+    if 'argument-modified' in io[4]:
+        return {'kind': 'argument-modified-by-call', 'op': case['op'], 'status': io[0]}
     return None
 
 
@@ -324,12 +408,12 @@ def nontrivial(case, io):
     return any(len(d.get(f, [])) >= 2 for f in FIELDS)
 
 
-def _distinct(d):
+def _distinct(d, keep_zero_length=True):
     """Enforce the quantifier's hypotheses on a generated description."""
     kept = []
     for n in sorted(d['notes'], key=lambda r: (r[2], r[3])):
-        if n[3] == n[2]:
-            continue                    # zero-length notes coincide with themselves at quantization
+        if n[3] == n[2] and not keep_zero_length:
+            continue
         clash = any(k[0] == n[0] and (k[2] < n[3] and n[2] < k[3] or k[2] == n[2] or k[3] == n[3]) for k in kept)
         if not clash:
             kept.append(n)
@@ -348,7 +432,8 @@ def _distinct(d):
     d['texts'] = uniq(d['texts'], lambda r: (r[0], r[3]))
     d['ccs'] = uniq(d['ccs'], lambda r: (r[0], r[2], r[4]))
     d['bends'] = uniq(d['bends'], lambda r: (r[0], r[2]))
-    d['sects'] = []
+    d['sects'] = uniq(d.get('sects', []), lambda r: r[0])
+    d['iinfos'] = uniq(d.get('iinfos', []), lambda r: r[0])
     ends = [n[3] for n in d['notes']]
     d['total'] = max([d['total']] + ends) if ends else d['total']
     return d
@@ -357,17 +442,52 @@ def _distinct(d):
 def _single_tempo(rng, d):
     d['tempos'] = [[0, d['tempos'][0][1]]] if d['tempos'] and rng.random() < 0.7 else []
     if d['tsigs'] and rng.random() < 0.7:
-        d['tsigs'] = [[0, d['tsigs'][0][1], rng.choice([2, 4, 8])]]
+        # mostly legal; denominator 3 / numerator 0 are the BadTimeSignatureError path
+        d['tsigs'] = [[0, rng.choice([d['tsigs'][0][1]] * 12 + [0]), rng.choice([2, 4, 8] * 6 + [3])]]
     else:
         d['tsigs'] = []
     return d
 
 
+def _proto_to_desc(ns):
+    """An operation's OUTPUT as the input description of the next one (two-step use)."""
+    w = nsio.to_wire(ns)
+    return {'notes': [r[:7] + [0, 0, r[9]] for r in w[0]], 'tempos': w[1], 'tsigs': w[2], 'ksigs': w[3],
+            'texts': [[r[0], 0, ''.join(chr(c) for c in r[2]), r[3]] for r in w[4]],
+            'ccs': [[r[0], 0] + r[2:] for r in w[5]], 'bends': w[6], 'sects': w[7], 'total': w[8], 'qsteps': 0,
+            'spq': 0, 'sps': 0, 'sub': w[12], 'tpq': w[13], 'meta': None}
+
+
+def _two_step(rng, d):
+    """Replace d by the output of an earlier operation on it (None if that operation rejects it)."""
+    from note_seq import sequences_lib as sl
+    _quiet()
+    try:
+        ns = _to_proto(d)
+        k = rng.randrange(4)
+        if k == 0:
+            out = sl.apply_sustain_control_changes(ns)
+        elif k == 1:
+            out = sl.stretch_note_sequence(ns, rng.choice([0.5, 2.0]))
+        elif k == 2:
+            ps = sl.split_note_sequence(ns, nsio.t2f(rng.choice([3, 5, 8]) * T))
+            out = rng.choice(ps) if ps else None
+        else:
+            out = sl.extract_subsequence(ns, nsio.t2f(rng.randint(0, 6) * T), nsio.t2f(rng.randint(7, 30) * T))
+        return _proto_to_desc(out) if out is not None else None
+    except Exception:  # noqa
+        return None
+
+
 def gen_case(rng, op, max_notes=None):
-    d = nsio.gen_desc(rng, max_notes=max_notes or rng.choice([3, 6, 12]), max_events=rng.choice([2, 4]),
-                      max_instr=rng.choice([1, 2, 3]), meta=False, sects=False)
-    # times on the coarse grid only for ops that multiply / quantize (exactness is not needed here, but
-    # coincidences are wanted)
+    d = nsio.gen_desc(rng, max_notes=max_notes or rng.choice([1, 3, 6, 12]), max_events=rng.choice([2, 4]),
+                      max_instr=rng.choice([1, 2, 3]), meta=False, sects=True)
+    # values at the ends of the MIDI ranges
+    for n in d['notes']:
+        if rng.random() < 0.06:
+            n[0] = rng.choice([0, 1, 126, 127])
+        if rng.random() < 0.06:
+            n[1] = rng.choice([1, 127])
     if op == 'pianoroll' and rng.random() < 0.7:
         # same-pitch notes that abut inside one frame (off the frame grid), different velocities: the cells
         # they share are written by both, last writer wins
@@ -380,6 +500,9 @@ def gen_case(rng, op, max_notes=None):
                 d['notes'].append([pitch, rng.randint(1, 60), s0, m, 0, 0, 0, 0, 0, 0])
                 d['notes'].append([pitch, rng.randint(61, 127), m, e, 0, 0, 0, 0, 0, 0])
         rng.shuffle(d['notes'])
+    ctl = 64
+    if op == 'sustain':
+        ctl = rng.choice([64, 64, 66, 7])
     if op == 'sustain' and rng.random() < 0.6:
         # pedal scenarios: several notes of different pitches starting TOGETHER on a pedalled instrument, some
         # ending before the pedal is released (held), some after (still sounding): every per-instrument list of
@@ -388,14 +511,14 @@ def gen_case(rng, op, max_notes=None):
             i = rng.choice([n[4] for n in d['notes']] or [0])
             t_on = rng.randint(0, 20) * T
             t_off = t_on + rng.randint(2, 12) * T
-            d['ccs'].append([t_on, 0, 64, rng.choice([64, 100, 127]), i, 0, 0])
-            d['ccs'].append([t_off, 0, 64, rng.choice([0, 10, 63]), i, 0, 0])
+            d['ccs'].append([t_on, 0, ctl, rng.choice([64, 100, 127]), i, 0, 0])
+            d['ccs'].append([t_off, 0, ctl, rng.choice([0, 10, 63]), i, 0, 0])
             if rng.random() < 0.4:
-                d['ccs'].append([t_off + rng.randint(1, 4) * T, 0, 64, 127, i, 0, 0])
+                d['ccs'].append([t_off + rng.randint(1, 4) * T, 0, ctl, 127, i, 0, 0])
             s0 = max(0, t_on + rng.randint(-2, 6) * T)
             for pitch in rng.sample(range(40, 80), rng.randint(2, 4)):
                 st = s0 if rng.random() < 0.8 else s0 + rng.randint(1, 3) * T
-                e = st + rng.randint(1, 14) * T
+                e = st + rng.randint(0, 14) * T
                 d['notes'].append([pitch, rng.randint(1, 127), st, e, i, 0, 0, 0, 0, 0])
             if rng.random() < 0.5:      # a re-struck pitch while the pedal is down
                 n0 = d['notes'][-1]
@@ -413,14 +536,33 @@ def gen_case(rng, op, max_notes=None):
                 d['ccs'].insert(rng.randint(0, len(d['ccs'])),
                                 [late, 0, rng.choice([64, 7]), rng.randint(0, 127), 0, 0, 0])
                 d['bends'].insert(rng.randint(0, len(d['bends'])), [late + T, rng.randint(-100, 100), 0, 0, 0])
-            d['total'] = max(d['total'], late + T)
-    d = _distinct(d)
+                if rng.random() < 0.5:      # time / key signatures and tempos are cut off too
+                    d['tsigs'].insert(0, [late, 3, 4])
+                    d['ksigs'].insert(0, [late + 2 * T, 5, 0])
+                    d['tempos'].insert(0, [late + 3 * T, 90 << nsio.QPM_BITS])
+            d['total'] = max(d['total'], late + 3 * T)
+        # instrument names: one instrument_info per instrument number, any subset
+        d['iinfos'] = [[i, rng.randrange(100)] for i in rng.sample(range(4), rng.randint(0, 4))]
+    d = _distinct(d, keep_zero_length=True)
+    if op not in ('midi',) and rng.random() < 0.12:
+        # two-step use: the input is the OUTPUT of an earlier operation
+        d2 = _two_step(rng, copy.deepcopy(d))
+        if d2 is not None:
+            d2['iinfos'] = []
+            d = _distinct(d2)
+    if rng.random() < 0.1:
+        d['sub'] = [rng.randint(0, 8) * T, rng.randint(0, 8) * T]     # a piece of something longer
+    if rng.random() < 0.03:
+        d['spq'] = 4                    # already quantized: QuantizationStatusError for the seconds-only operations
+    if rng.random() < 0.02 and d['notes']:
+        d['notes'][rng.randrange(len(d['notes']))][2] = -T            # NegativeTimeError path of the quantizers
     total = d['total']
+    pres = rng.choice([None, None, [], [64], [7, 64], [1, 7, 10], [64, 66, 67]])
     if op == 'quantize_rel':
         r = rng.random()
-        if r < 0.5:
+        if r < 0.6:
             d = _single_tempo(rng, d)
-        elif r < 0.75:
+        elif r < 0.8:
             # tempo marks at different times whose values are equal or differ by a hair (round-off sized): a
             # validation that tolerates the difference must not let the storage order pick the surviving one
             q0 = rng.choice([60, 90, 120, 133]) << nsio.QPM_BITS
@@ -429,29 +571,48 @@ def gen_case(rng, op, max_notes=None):
             rng.shuffle(d['tempos'])
             if rng.random() < 0.5:
                 d['tsigs'] = []
-        args = [rng.choice([1, 2, 4, 12])]
+        elif r < 0.9 and d['tsigs']:
+            # the same for time signatures: several marks with one value, the earliest not at time 0
+            v = d['tsigs'][0][1:]
+            d['tsigs'] = [[t * T] + v for t in rng.sample(range(0, 30), rng.randint(2, 3))]
+        args = {'spq': rng.choice([1, 2, 4, 12, 96])}
     elif op == 'quantize_abs':
-        args = [rng.choice([1, 4, 10, 100])]
+        args = {'sps': rng.choice([1, 4, 10, 100, 1000])}
     elif op == 'extract_many':
-        args = [sorted(set(rng.randint(0, 40) * T for _ in range(rng.randint(2, 5))))]
-        if len(args[0]) < 2:
-            args = [[0, 10 * T]]
+        hi_q = max(2, total // T) if rng.random() < 0.8 else 40
+        ts = sorted(set(rng.randint(0, hi_q) * T + rng.choice([0, 0, 1]) for _ in range(rng.randint(2, 5))))
+        if len(ts) < 2:
+            ts = [0, 10 * T]
+        if rng.random() < 0.05:
+            ts = ts[::-1]               # unsorted split times: ValueError
+        if rng.random() < 0.03:
+            ts = ts[:1]                 # fewer than two: ValueError
+        args = {'ts': ts, 'pres': pres}
+    elif op in ('extract_one', 'trim'):
+        a = rng.randint(0, max(1, min(20, total // T))) * T + rng.choice([0, 0, 1, -1])
+        args = {'a': max(a, 0), 'b': max(a, 0) + rng.randint(0, 20) * T + rng.choice([0, 0, 2]), 'pres': pres}
     elif op == 'split_hop':
-        args = [rng.choice([1, 2, 3, 5, 8]) * T, rng.random() < 0.5]
+        args = {'hop': rng.choice([1, 2, 3, 5, 8, 40]) * T, 'skip': rng.random() < 0.5}
+    elif op == 'split_list':
+        times = [rng.randint(1, 40) * T + rng.choice([0, 0, 1]) for _ in range(rng.randint(0, 4))]
+        args = {'times': times, 'skip': rng.random() < 0.5}
     elif op == 'split_time_changes':
-        args = [rng.random() < 0.5]
+        args = {'skip': rng.random() < 0.5}
     elif op == 'split_silence':
-        args = [rng.choice([1, 2, 4, 12]) * T]
+        args = {'gap': rng.choice([0, 1, 2, 4, 12, 12]) * T}
     elif op == 'sustain':
-        args = []
+        args = {'ctl': ctl}
     elif op == 'transpose':
-        args = [rng.randint(-20, 20), rng.choice([0, 21, 40]), rng.choice([127, 108, 80]), rng.random() < 0.5]
+        if rng.random() < 0.04:
+            d['texts'].append([rng.randint(0, 20) * T + 5, 0, rng.choice(['H7#', 'Cmaj#x']), 1])   # ChordSymbolError
+        args = {'amount': rng.choice([rng.randint(-20, 20), 0, 127, -127]), 'lo': rng.choice([0, 21, 40, 60]),
+                'hi': rng.choice([127, 108, 80, 60]), 'chords': rng.random() < 0.5, 'in_place': rng.random() < 0.3}
     elif op == 'stretch':
-        args = [rng.choice([1, 2, 3, 4, 6, 8, 16])]
+        args = {'f4': rng.choice([1, 2, 3, 4, 6, 8, 16]), 'in_place': rng.random() < 0.3}
     elif op == 'shift':
-        args = [rng.choice([0, 1, 2, 5, 40]) * T + rng.choice([0, 0, 3])]
+        args = {'d': rng.choice([0, 1, 2, 5, 40]) * T + rng.choice([0, 0, 3])}
     elif op == 'midi':
-        args = [drop]
+        args = {'drop': drop}
     elif op == 'pianoroll':
         # sequence_to_pianoroll assumes a single instrument: two control changes of one number at one time
         # are "two state events of one kind sharing a time" whatever their instrument field says
@@ -460,24 +621,42 @@ def gen_case(rng, op, max_notes=None):
             if (r[0], r[2]) not in seen:
                 seen.add((r[0], r[2])); keep.append(r)
         d['ccs'] = keep
-        args = [rng.choice([4, 8, 16, 32]), rng.choice([0, 21]), rng.choice([108, 127]),
-                rng.choice(['window', 'length_ms']), rng.choice([0, 250]), rng.random() < 0.3,
-                rng.random() < 0.8, rng.choice([0, 0, 2])]
-    elif op in ('melody', 'drums'):
+        lo = rng.choice([0, 21, 60])
+        args = {'fps': rng.choice([4, 8, 16, 32, 31.25]), 'lo': lo, 'hi': rng.choice([108, 127, lo, lo + 12]),
+                'onset_mode': rng.choice(['window', 'length_ms']), 'onset_ms': rng.choice([0, 32, 250]),
+                'offset_ms': rng.choice([0, 32, 250]), 'blank': rng.random() < 0.4, 'overlap': rng.random() < 0.7,
+                'occ4': rng.choice([0, 0, 1, 2]), 'max_vel': rng.choice([127, 127, 127, 100]),
+                'upweight': rng.choice([5, 1, 2.5]), 'window': rng.choice([1, 0, 2]),
+                'delay_ms': rng.choice([0, 0, 50, -50])}
+    elif op == 'melody':
         d = _single_tempo(rng, d)
-        args = [rng.choice([1, 2, 4]), rng.randrange(3), rng.choice([1, 2]), rng.random() < 0.7, rng.random() < 0.5]
+        args = {'spq': rng.choice([1, 2, 4]), 'start': rng.choice([0, 0, 1, 4, 16]), 'instrument': rng.randrange(3),
+                'gap_bars': rng.choice([1, 2, 4]), 'ignore_poly': rng.random() < 0.6, 'pad_end': rng.random() < 0.5,
+                'filter_drums': rng.random() < 0.6}
+    elif op == 'drums':
+        d = _single_tempo(rng, d)
+        args = {'spq': rng.choice([1, 2, 4]), 'start': rng.choice([0, 0, 1, 4, 16]), 'gap_bars': rng.choice([1, 2, 4]),
+                'pad_end': rng.random() < 0.5, 'ignore_is_drum': rng.random() < 0.4}
     elif op == 'chords':
         d = _single_tempo(rng, d)
-        args = [rng.choice([1, 2, 4]), rng.randint(0, 8), rng.randint(1, 64)]
+        args = {'spq': rng.choice([1, 2, 4]), 'start': rng.randint(0, 8), 'len': rng.choice([0, 1, rng.randint(1, 64)])}
     elif op == 'pianorollseq':
         d = _single_tempo(rng, d)
-        args = [rng.choice([1, 2, 4]), rng.choice([0, 0, 4]), rng.choice([0, 21]), rng.choice([108, 127]),
-                rng.random() < 0.7]
+        lo = rng.choice([0, 21, 60])
+        args = {'spq': rng.choice([1, 2, 4]), 'start': rng.choice([0, 0, 1, 4]), 'lo': lo,
+                'hi': rng.choice([108, 127, lo, lo + 12]), 'split': rng.random() < 0.6,
+                'shift_range': rng.random() < 0.3}
     elif op == 'metric_performance':
         d = _single_tempo(rng, d)
-        args = [rng.choice([1, 2, 4]), rng.choice([0, 0, 4]), rng.choice([0, 8, 32]), rng.choice([None, 0, 1])]
+        args = {'spq': rng.choice([1, 2, 4]), 'start': rng.choice([0, 0, 1, 4]), 'bins': rng.choice([0, 1, 8, 32, 127]),
+                'max_shift_q': rng.choice([4, 4, 1, 8]), 'instrument': rng.choice([None, 0, 1, 2])}
     elif op == 'performance':
-        args = [rng.choice([4, 10, 100]), rng.choice([0, 0, 4]), rng.choice([0, 8, 32]), rng.choice([None, 0, 1])]
+        args = {'sps': rng.choice([4, 10, 100]), 'start': rng.choice([0, 0, 1, 4]), 'bins': rng.choice([0, 1, 8, 32, 127]),
+                'max_shift': rng.choice([100, 100, 1, 3, 1000]), 'instrument': rng.choice([None, 0, 1, 2])}
+    elif op == 'note_performance':
+        args = {'sps': rng.choice([4, 10, 100]), 'start': rng.choice([0, 0, 1, 4]), 'bins': rng.choice([1, 8, 32, 127]),
+                'max_shift': rng.choice([1000, 1000, 5, 50]), 'max_dur': rng.choice([1000, 1000, 5, 50]),
+                'instrument': rng.choice([None, 0, 1, 2])}
     else:
         raise ValueError(op)
     return {'op': op, 'input': {'seq': d, 'args': args, 'seed': rng.randrange(1 << 30)}}
@@ -485,7 +664,7 @@ def gen_case(rng, op, max_notes=None):
 
 def cases(rng, tier, n=None):
     if n is None:
-        n = 3600 if tier == "quick" else 72000
+        n = 8800 if tier == "quick" else 88000
     out = [gen_case(rng, OPS[i % len(OPS)]) for i in range(n)]
     if tier == 'thorough':
         # all permutations of the notes for sequences of <= 5 notes
@@ -498,32 +677,37 @@ def cases(rng, tier, n=None):
     return out
 
 
+PR_DEFAULT = {'fps': 8, 'lo': 21, 'hi': 108, 'onset_mode': 'window', 'onset_ms': 0, 'offset_ms': 0, 'blank': False,
+              'overlap': True, 'occ4': 0, 'max_vel': 127, 'upweight': 5, 'window': 1, 'delay_ms': 0}
+
+
 def corpus():
     out = []
     # F1: tempos stored out of time order must be rejected (or accepted) independently of storage order
     base = {'notes': [[60, 100, 0, 4 * T, 0, 0, 0, 0, 0, 0]], 'tempos': [[20 * T, 60 << 20], [0, 120 << 20]],
             'tsigs': [], 'ksigs': [], 'texts': [], 'ccs': [], 'bends': [], 'sects': [], 'total': 4 * T, 'meta': None}
     for s in range(4):
-        out.append({'op': 'quantize_rel', 'input': {'seq': copy.deepcopy(base), 'args': [4], 'seed': s}})
+        out.append({'op': 'quantize_rel', 'input': {'seq': copy.deepcopy(base), 'args': {'spq': 4}, 'seed': s}})
     # two tempo marks that differ by round-off (120 and 119.9995 qpm), later one stored first: rejected or
     # accepted, but the same either way, and with the same surviving tempo
     b1 = copy.deepcopy(base)
     b1['tempos'] = [[20 * T, (120 << 20) - 524], [0, 120 << 20]]
     b1['notes'] = [[60, 100, 250 * T + T // 4, 260 * T, 0, 0, 0, 0, 0, 0]]; b1['total'] = 260 * T
     for s in range(4):
-        out.append({'op': 'quantize_rel', 'input': {'seq': copy.deepcopy(b1), 'args': [4], 'seed': s}})
+        out.append({'op': 'quantize_rel', 'input': {'seq': copy.deepcopy(b1), 'args': {'spq': 4}, 'seed': s}})
     # F8: MIDI export with unsorted tempos
     b2 = copy.deepcopy(base)
     b2['tempos'] = [[8 * T, 60 << 20], [4 * T, 90 << 20], [0, 120 << 20]]
     b2['notes'] = [[60, 100, 10 * T, 12 * T, 0, 0, 0, 0, 0, 0]]; b2['total'] = 12 * T
     for s in range(4):
-        out.append({'op': 'midi', 'input': {'seq': copy.deepcopy(b2), 'args': [None], 'seed': s}})
+        out.append({'op': 'midi', 'input': {'seq': copy.deepcopy(b2), 'args': {'drop': None}, 'seed': s}})
     # F7: two abutting same-pitch notes, PianorollSequence split_repeats
     b3 = copy.deepcopy(base)
     b3['tempos'] = []
     b3['notes'] = [[60, 100, 0, 2 * T, 0, 0, 0, 0, 0, 0], [60, 100, 2 * T, 4 * T, 0, 0, 0, 0, 0, 0]]
     for s in range(4):
-        out.append({'op': 'pianorollseq', 'input': {'seq': copy.deepcopy(b3), 'args': [4, 0, 0, 127, True], 'seed': s}})
+        out.append({'op': 'pianorollseq', 'input': {'seq': copy.deepcopy(b3), 'args': {'spq': 4, 'start': 0, 'lo': 0, 'hi': 127, 'split': True,
+                                                             'shift_range': False}, 'seed': s}})
     # MIDI export with drop_events_n_seconds_after_last_note: a stray control change / pitch bend beyond the
     # cut-off stored among the in-range ones (an early exit from the loop would lose the later-stored ones)
     b4 = copy.deepcopy(base)
@@ -534,7 +718,7 @@ def corpus():
     b4['bends'] = [[40 * T, 0, 0, 0, 0], [2 * T, 1000, 0, 0, 0], [5 * T, -1000, 0, 0, 0]]
     b4['total'] = 40 * T
     for s in range(6):
-        out.append({'op': 'midi', 'input': {'seq': copy.deepcopy(b4), 'args': [4], 'seed': s}})
+        out.append({'op': 'midi', 'input': {'seq': copy.deepcopy(b4), 'args': {'drop': 4}, 'seed': s}})
     # frame pianoroll: two same-pitch notes of different velocity abutting inside a frame, later one stored first
     b5 = copy.deepcopy(base)
     b5['tempos'] = [[0, 120 << 20]]
@@ -542,7 +726,7 @@ def corpus():
                    [64, 80, T, 3 * T, 0, 0, 0, 0, 0, 0]]
     for s in range(6):
         out.append({'op': 'pianoroll', 'input': {'seq': copy.deepcopy(b5),
-                                                 'args': [4, 60, 64, 'window', 0, False, True, 0], 'seed': s}})
+                                                 'args': dict(PR_DEFAULT, fps=4, lo=60, hi=64), 'seed': s}})
     # sustain: two notes starting together under the pedal, one held, one still sounding at the release
     b6 = copy.deepcopy(base)
     b6['tempos'] = []
@@ -550,7 +734,40 @@ def corpus():
     b6['ccs'] = [[24 * T, 0, 64, 0, 0, 0, 0], [4 * T, 0, 64, 127, 0, 0, 0]]
     b6['total'] = 40 * T
     for s in range(4):
-        out.append({'op': 'sustain', 'input': {'seq': copy.deepcopy(b6), 'args': [], 'seed': s}})
+        out.append({'op': 'sustain', 'input': {'seq': copy.deepcopy(b6), 'args': {'ctl': 64}, 'seed': s}})
+    # Performance: notes stored out of (start, pitch) order with different velocity bins (the velocity must be the
+    # sorted note's), one instrument filter, a non-default max_shift_steps
+    b7 = copy.deepcopy(base)
+    b7['tempos'] = []
+    b7['notes'] = [[67, 120, 4 * T, 8 * T, 1, 0, 0, 0, 0, 0], [60, 10, 0, 4 * T, 1, 0, 0, 0, 0, 0],
+                   [64, 60, 0, 2 * T, 0, 0, 0, 0, 0, 0]]
+    b7['total'] = 8 * T
+    for s in range(3):
+        out.append({'op': 'performance', 'input': {'seq': copy.deepcopy(b7), 'seed': s, 'args': {
+            'sps': 4, 'start': 0, 'bins': 8, 'max_shift': 3, 'instrument': None}}})
+        out.append({'op': 'note_performance', 'input': {'seq': copy.deepcopy(b7), 'seed': s, 'args': {
+            'sps': 4, 'start': 0, 'bins': 8, 'max_shift': 50, 'max_dur': 50, 'instrument': 1}}})
+    # rare shapes: the empty sequence and a single zero-length note through every operation (defaults)
+    empty = {'notes': [], 'tempos': [], 'tsigs': [], 'ksigs': [], 'texts': [], 'ccs': [], 'bends': [], 'sects': [],
+             'total': 0, 'meta': None, 'qinfo_empty': True}
+    one = copy.deepcopy(empty); one['notes'] = [[0, 1, 2 * T, 2 * T, 0, 0, 0, 0, 0, 0]]; one['total'] = 2 * T
+    defaults = {
+        'quantize_rel': {'spq': 4}, 'quantize_abs': {'sps': 100}, 'extract_many': {'ts': [0, T], 'pres': []},
+        'extract_one': {'a': 0, 'b': T, 'pres': None}, 'trim': {'a': 0, 'b': T}, 'split_hop': {'hop': T, 'skip': True},
+        'split_list': {'times': [], 'skip': False}, 'split_time_changes': {'skip': True}, 'split_silence': {'gap': 0},
+        'sustain': {'ctl': 64}, 'transpose': {'amount': 1, 'lo': 0, 'hi': 127, 'chords': True, 'in_place': True},
+        'stretch': {'f4': 8, 'in_place': True}, 'shift': {'d': T}, 'midi': {'drop': 0}, 'pianoroll': dict(PR_DEFAULT),
+        'melody': {'spq': 4, 'start': 0, 'instrument': 0, 'gap_bars': 1, 'ignore_poly': False, 'pad_end': True,
+                   'filter_drums': True},
+        'drums': {'spq': 4, 'start': 0, 'gap_bars': 1, 'pad_end': True, 'ignore_is_drum': True},
+        'chords': {'spq': 4, 'start': 0, 'len': 4},
+        'pianorollseq': {'spq': 4, 'start': 0, 'lo': 0, 'hi': 0, 'split': True, 'shift_range': True},
+        'performance': {'sps': 100, 'start': 0, 'bins': 127, 'max_shift': 1, 'instrument': None},
+        'metric_performance': {'spq': 4, 'start': 0, 'bins': 1, 'max_shift_q': 1, 'instrument': 0},
+        'note_performance': {'sps': 100, 'start': 0, 'bins': 1, 'max_shift': 1000, 'max_dur': 1000, 'instrument': None}}
+    for op in OPS:
+        for sq in (empty, one):
+            out.append({'op': op, 'input': {'seq': copy.deepcopy(sq), 'args': copy.deepcopy(defaults[op]), 'seed': 1}})
     return out
 
 
